@@ -516,6 +516,38 @@ Proof.
   destruct (first_stop (c :: rest) (fun i => ai_status (o i)) 0 (c :: rest)); reflexivity.
 Qed.
 
+(* AF_UNSPEC walk = single-query walk over the combined outcomes *)
+Lemma host_callback2_combine names next nd f l :
+  host_callback2 names next nd f l = host_callback names next nd (ai2_combine f l).
+Proof.
+  unfold host_callback2, host_callback, ai2_combine.
+  destruct ((ao_status l =? ARES_EDESTRUCTION) || (ao_status l =? ARES_ECANCELLED))%Z eqn:Hc.
+  - rewrite Hc. reflexivity.
+  - destruct (has_addr f || has_addr l) eqn:Hn.
+    + cbn [ao_status ao_addr]. reflexivity.
+    + rewrite Hc. apply orb_false_iff in Hn. destruct Hn as (_ & Hl). unfold has_addr in Hl. rewrite Hl. reflexivity.
+Qed.
+
+Lemma ai2_loop_combine names o : forall fuel next nd sent,
+  ai2_loop fuel names o next nd sent
+  = ai_loop fuel names (fun i => ai2_combine (fst (o i)) (snd (o i))) next nd sent.
+Proof.
+  induction fuel as [|f IH]; intros next nd sent; [reflexivity|].
+  cbn [ai2_loop ai_loop]. rewrite host_callback2_combine.
+  destruct (host_callback names next nd (ai2_combine (fst (o (Init.Nat.pred next))) (snd (o (Init.Nat.pred next))))) as [r| |];
+    cbn [bind]; try reflexivity.
+  destruct (fst r); [reflexivity|]. destruct (nth_error names next); [apply IH|reflexivity].
+Qed.
+
+Lemma ai2_run_correct names o :
+  names <> [] ->
+  ai2_run names o = Ok (spec_queried names (fun i => ai_status (ai2_combine (fst (o i)) (snd (o i)))),
+                        spec_status names (fun i => ai_status (ai2_combine (fst (o i)) (snd (o i))))).
+Proof.
+  intros Hne. rewrite <- (ai_run_correct names (fun i => ai2_combine (fst (o i)) (snd (o i))) Hne).
+  unfold ai2_run, ai_run. destruct names as [|n r]; [reflexivity|]. apply ai2_loop_combine.
+Qed.
+
 (* ------------------------------------------------------------------------------------ *)
 (* Non-vacuity: a non-trivial configuration exercising both positions of the as-is name   *)
 (* ------------------------------------------------------------------------------------ *)
